@@ -46,17 +46,51 @@ pub fn safe_params_vec(ext: &Extensions) -> Vec<(String, String)> {
 
 type SyncEndpoints = Vec<Box<dyn Endpoint<Chunks, Vec<u8>> + Sync + Send>>;
 
+/// A scripted response: when set on a loop-back transport, `send` does not route the request but
+/// answers with exactly this (body re-chunked at random, optionally with a stream error).
+#[derive(Debug, Clone, Default)]
+pub struct Canned {
+    pub status: u16,
+    /// header values as latin-1 strings (chars are bytes)
+    pub headers: Vec<(String, String)>,
+    pub body: Vec<u8>,
+    /// index of the chunk before which the stream fails
+    pub fail_at: Option<usize>,
+}
+
+impl Canned {
+    fn response(&self, rng: &mut Rng) -> (http::response::Parts, Chunks, usize) {
+        let chunks = random_chunking(rng, &self.body);
+        let n = chunks.len();
+        let mut c = Chunks::of(chunks);
+        if let Some(at) = self.fail_at {
+            c = c.fail_at(at);
+        }
+        let mut out = Response::new(());
+        *out.status_mut() = StatusCode::from_u16(self.status).expect("status");
+        for (k, v) in &self.headers {
+            let bytes: Vec<u8> = v.chars().map(|c| c as u32 as u8).collect();
+            out.headers_mut().append(
+                http::header::HeaderName::from_bytes(k.as_bytes()).expect("header name"),
+                http::HeaderValue::from_bytes(&bytes).expect("header value"),
+            );
+        }
+        (out.into_parts().0, c, n)
+    }
+}
+
 pub struct Loopback {
     endpoints: SyncEndpoints,
     rng: Mutex<Rng>,
     pub log: Mutex<Vec<Exchange>>,
     /// optional extra request headers (e.g. an Accept override for Smile negotiation)
     pub override_accept: Mutex<Option<http::HeaderValue>>,
+    pub canned: Mutex<Option<Canned>>,
 }
 
 impl Loopback {
     pub fn new(endpoints: SyncEndpoints, seed: u64) -> Loopback {
-        Loopback { endpoints, rng: Mutex::new(Rng::new(seed)), log: Mutex::new(vec![]), override_accept: Mutex::new(None) }
+        Loopback { endpoints, rng: Mutex::new(Rng::new(seed)), log: Mutex::new(vec![]), override_accept: Mutex::new(None), canned: Mutex::new(None) }
     }
 
     pub fn last(&self) -> Exchange {
@@ -89,6 +123,13 @@ impl Client for &Loopback {
         }
         ex.request_headers = headers_vec(&parts.headers);
         ex.request_body = body.clone();
+        if let Some(canned) = self.canned.lock().unwrap().clone() {
+            let (rparts, chunks, n) = canned.response(&mut self.rng.lock().unwrap());
+            ex.status = Some(canned.status);
+            ex.routes_matched = n; // number of body chunks of the canned response
+            self.log.lock().unwrap().push(ex);
+            return Ok(Response::from_parts(rparts, chunks));
+        }
         let metas: Vec<&(dyn Endpoint<Chunks, Vec<u8>> + Sync + Send)> = self.endpoints.iter().map(|e| &**e).collect();
         let mut routed = route(&metas, &parts.method, parts.uri.path());
         ex.routes_matched = routed.len();
@@ -150,11 +191,12 @@ pub struct AsyncLoopback {
     rng: Mutex<Rng>,
     pub log: Mutex<Vec<Exchange>>,
     pub override_accept: Mutex<Option<http::HeaderValue>>,
+    pub canned: Mutex<Option<Canned>>,
 }
 
 impl AsyncLoopback {
     pub fn new(endpoints: Vec<BoxAsyncEndpoint<'static, ChunkStream, Vec<u8>>>, seed: u64) -> AsyncLoopback {
-        AsyncLoopback { endpoints, rng: Mutex::new(Rng::new(seed)), log: Mutex::new(vec![]), override_accept: Mutex::new(None) }
+        AsyncLoopback { endpoints, rng: Mutex::new(Rng::new(seed)), log: Mutex::new(vec![]), override_accept: Mutex::new(None), canned: Mutex::new(None) }
     }
 
     pub fn last(&self) -> Exchange {
@@ -184,6 +226,13 @@ impl AsyncClient for &AsyncLoopback {
         }
         ex.request_headers = headers_vec(&parts.headers);
         ex.request_body = body.clone();
+        if let Some(canned) = self.canned.lock().unwrap().clone() {
+            let (rparts, chunks, n) = canned.response(&mut self.rng.lock().unwrap());
+            ex.status = Some(canned.status);
+            ex.routes_matched = n;
+            self.log.lock().unwrap().push(ex);
+            return Ok(Response::from_parts(rparts, ChunkStream::new(chunks)));
+        }
         let metas: Vec<&BoxAsyncEndpoint<'static, ChunkStream, Vec<u8>>> = self.endpoints.iter().collect();
         let mut routed = route(&metas, &parts.method, parts.uri.path());
         ex.routes_matched = routed.len();
